@@ -217,8 +217,7 @@ def compare_case(c, K, fmt, mo, A, B, files):
     S = mo["S"]
     if fmt == "text":
         if fam in ("restraint", "extlag"):
-            word = {"harmonic": "harmonic", "walls": "harmonicwalls", "linear": "linear"}[
-                (c["model"]["r"] if fam == "extlag" else c["model"])["kind"]]
+            word = "restraint"      # colvarbias_restraint sets state_keyword = "restraint" for every restraint type
             has_bias = not (fam == "extlag" and c["model"].get("nobias"))
             blk = state_block(files["a"], word, "r") if has_bias else {}
             if blk is None:
